@@ -262,13 +262,27 @@ def target_paths(scn):
     return []
 
 
-def execute(scn, deviations):
+class _NoSim:
+    """stock open()/os: used to bind _pyio.open to the C io module"""
+    points = ()
+    applied = ()
+    opened_for_write = ()
+    deviations = {}
+
+    def __enter__(self):
+        return self
+
+    def __exit__(self, *a):
+        return False
+
+
+def execute(scn, deviations, use_sim=True):
     """one execution. returns dict(outcome, points, tree, obs, applied, ...)
     """
     d = sandbox.fresh_dir("c18")
     try:
         model = setup(d, scn)
-        sim = iosim.IOSim(d)
+        sim = iosim.IOSim(d) if use_sim else _NoSim()
         sim.deviations = dict(deviations)
         outcome = None
         with sim:
@@ -426,6 +440,13 @@ def explore(col, scn, tier):
     if again["points"] != ref["points"] or again["tree"] != ref["tree"]:
         raise RuntimeError("fault-free run is not reproducible: %r vs %r"
                            % (again["points"], ref["points"]))
+    # _pyio.open <-> C io: the same history with the stock open() must
+    # produce the same tree and result
+    stock = execute(scn, {}, use_sim=False)
+    if stock["tree"] != ref["tree"] or stock["outcome"] != ref["outcome"]:
+        raise RuntimeError("seam changes the fault-free behaviour: %r vs %r"
+                           % (stock["outcome"], ref["outcome"]))
+    col.extra("pyio_vs_c_io_trees_compared")
     pts = ref["points"]
     col.extra("points", len(pts))
     singles = [(k, a) for k in range(len(pts))
